@@ -12,6 +12,7 @@ import (
 	"net/url"
 	"strconv"
 	"sync"
+	"sync/atomic"
 	"time"
 
 	"github.com/rs/dnscache"
@@ -296,7 +297,7 @@ func ConnectTo(addrMap map[string][]string) func(*Attacker) {
 
 		type roundRobin struct {
 			addrs []string
-			n     int
+			n     uint64 // only accessed atomically: dials run concurrently
 		}
 
 		connectTo := make(map[string]*roundRobin, len(addrMap))
@@ -306,8 +307,8 @@ func ConnectTo(addrMap map[string][]string) func(*Attacker) {
 
 		tr.DialContext = func(ctx context.Context, network, addr string) (net.Conn, error) {
 			if cm, ok := connectTo[addr]; ok {
-				cm.n = (cm.n + 1) % len(cm.addrs)
-				addr = cm.addrs[cm.n]
+				n := atomic.AddUint64(&cm.n, 1)
+				addr = cm.addrs[n%uint64(len(cm.addrs))]
 			}
 			return dial(ctx, network, addr)
 		}
@@ -349,6 +350,7 @@ func DNSCaching(ttl time.Duration) func(*Attacker) {
 				}()
 			}
 
+			var rngMu sync.Mutex // rng is not safe for the concurrent use dials make of it
 			rng := rand.New(rand.NewSource(time.Now().UnixNano()))
 
 			tr.DialContext = func(ctx context.Context, network, addr string) (conn net.Conn, err error) {
@@ -372,7 +374,9 @@ func DNSCaching(ttl time.Duration) func(*Attacker) {
 				// The slice returned by LookupHost is owned by the resolver's cache,
 				// so shuffle a copy of it.
 				ips = append([]string(nil), ips...)
+				rngMu.Lock()
 				rng.Shuffle(len(ips), func(i, j int) { ips[i], ips[j] = ips[j], ips[i] })
+				rngMu.Unlock()
 
 				ips = firstOfEachIPFamily(ips)
 
